@@ -289,6 +289,40 @@ type Spec[C any] struct {
 	// Inflight: the code under test runs on goroutines of its own, where a panic ends the whole process. The case
 	// being executed is then written to $VERIF_INFLIGHT first, so that the driver can report it as the replay file.
 	Inflight bool
+	// ConfirmKinds: violation kinds that rest on a bounded wait (something did not happen within N seconds). Such a
+	// violation is reported only if the same case fails again in one of up to five further executions; a single occurrence is
+	// counted as a discard (class "bounded-wait-not-reproduced"). Deterministic defects reproduce, a stalled machine
+	// does not.
+	ConfirmKinds []string
+	// Confirm: every violation kind is treated as in ConfirmKinds (specs whose oracles are eventual clauses with
+	// bounds, on code that runs on goroutines of its own)
+	Confirm bool
+}
+
+// confirmed applies Spec.ConfirmKinds to an outcome.
+func (s Spec[C]) confirmed(c C, o Outcome) Outcome {
+	if o.V == nil || (len(s.ConfirmKinds) == 0 && !s.Confirm) {
+		return o
+	}
+	need := s.Confirm
+	for _, k := range s.ConfirmKinds {
+		if o.V.Kind == k {
+			need = true
+		}
+	}
+	if !need {
+		return o
+	}
+	// up to five more executions of the same case; one more failure confirms
+	for i := 0; i < 5; i++ {
+		if o2 := s.Check(c); o2.V != nil {
+			return o
+		}
+	}
+	o.V = nil
+	o.Discard = true
+	o.Classes = append(o.Classes, "bounded-wait-not-reproduced")
+	return o
 }
 
 // inflight records the case about to be executed (see Spec.Inflight); done() removes the record.
@@ -321,7 +355,7 @@ func Check[C any](t *testing.T, s Spec[C]) {
 			t.Logf("known finding %s: cannot decode probe: %v", k.Kind, err)
 			continue
 		}
-		o := s.Check(pc)
+		o := s.confirmed(pc, s.Check(pc))
 		if o.V != nil && o.V.Kind == k.Kind {
 			knownKinds[k.Kind] = true
 			col.st.KnownReproduce[k.Kind] = true
@@ -367,7 +401,7 @@ func Check[C any](t *testing.T, s Spec[C]) {
 				continue
 			}
 			done := inflight(s.Inflight, s.Property, t.Name(), rf.Case)
-			o := s.Check(c)
+			o := s.confirmed(c, s.Check(c))
 			done()
 			col.st.Classes["regression-replay"]++
 			if o.V != nil && !knownKinds[o.V.Kind] {
@@ -381,7 +415,7 @@ func Check[C any](t *testing.T, s Spec[C]) {
 		c := s.Gen(rt)
 		cj := caseJSON(c)
 		done := inflight(s.Inflight, s.Property, t.Name(), cj)
-		o := s.Check(c)
+		o := s.confirmed(c, s.Check(c))
 		done()
 		if o.V != nil && knownKinds[o.V.Kind] {
 			col.mu.Lock()
@@ -429,7 +463,7 @@ func Replay[C any](t *testing.T, s Spec[C]) {
 	if err := json.Unmarshal(rf.Case, &c); err != nil {
 		t.Fatalf("decode case: %v", err)
 	}
-	o := s.Check(c)
+	o := s.confirmed(c, s.Check(c))
 	if o.V != nil {
 		fmt.Printf("VIOLATION-CASE property=%s kind=%s file=%s\n", s.Property, o.V.Kind, p)
 		t.Fatalf("replayed violation kind=%s: %s", o.V.Kind, o.V.Msg)
